@@ -456,7 +456,38 @@ func (c *Ctx) pathConds(info *types.Info, body *ast.BlockStmt, target ast.Node, 
 			conds = nil // a closure body starts a new path
 		}
 	}
-	return conds, ok
+	return flattenConds(conds), ok
+}
+
+// flattenConds splits `A && B` (positive) and `A || B` (negated) into their parts, and strips
+// leading negations, so that merging nested ifs into one condition does not change what is seen.
+func flattenConds(in []cond) []cond {
+	var out []cond
+	var add func(cd cond)
+	add = func(cd cond) {
+		if cd.Expr == nil {
+			out = append(out, cd)
+			return
+		}
+		switch x := unparen(cd.Expr).(type) {
+		case *ast.BinaryExpr:
+			if (x.Op == token.LAND && !cd.Neg) || (x.Op == token.LOR && cd.Neg) {
+				add(cond{Expr: x.X, Neg: cd.Neg})
+				add(cond{Expr: x.Y, Neg: cd.Neg})
+				return
+			}
+		case *ast.UnaryExpr:
+			if x.Op == token.NOT {
+				add(cond{Expr: x.X, Neg: !cd.Neg})
+				return
+			}
+		}
+		out = append(out, cd)
+	}
+	for _, cd := range in {
+		add(cd)
+	}
+	return out
 }
 
 func (c *Ctx) guardsBefore(info *types.Info, list []ast.Stmt, child ast.Node) []cond {
